@@ -9,6 +9,7 @@ import (
 	"strings"
 	"time"
 
+	"github.com/rqlite/rqlite/v10/verifx"
 	"verifsim/core"
 	"verifsim/node"
 	"verifsim/sim"
@@ -286,6 +287,29 @@ func c01Run(c *core.Ctx, raw json.RawMessage) {
 	s.ClockOffset = time.Duration(sc.ClockMs) * time.Millisecond
 	k := &sqlCluster{c: c, s: s}
 	restores0, snaps0 := storeStat("num_restores"), storeStat("num_snapshots")
+	// count snapshot restores by kind: on a running node = InstallSnapshot from the
+	// leader, on a starting node = restore from its own snapshot store
+	installs, startRestores, applies := 0, 0, 0
+	verifx.InstallHooks(func(point string) error {
+		switch {
+		case strings.HasPrefix(point, "store.fsmRestore.begin/"):
+			up := false
+			for _, n := range s.Nodes[1:] {
+				if n.ID == point[len("store.fsmRestore.begin/"):] {
+					up = n.Up
+				}
+			}
+			if up {
+				installs++
+			} else {
+				startRestores++
+			}
+		case strings.HasPrefix(point, "store.fsmApply.before/"):
+			applies++
+		}
+		return nil
+	}, nil, nil, nil, nil)
+	defer verifx.ResetHooks()
 
 	// base schema and rows through the HTTP API of the leader
 	g := sqlgen.New(core.NewRand(1), sqlgen.Opts{})
@@ -464,7 +488,10 @@ func c01Run(c *core.Ctx, raw json.RawMessage) {
 		}
 		return true
 	}, 180*time.Second)
-	c.ProbeN("restores(install-snapshot or restart)", int(storeStat("num_restores")-restores0))
+	c.ProbeN("restores_total", int(storeStat("num_restores")-restores0))
+	c.ProbeN("install_snapshot_on_running_node", installs)
+	c.ProbeN("restore_from_own_snapshot_at_start", startRestores)
+	c.ProbeN("log_entries_applied", applies)
 	c.ProbeN("snapshots_taken", int(storeStat("num_snapshots")-snaps0))
 	if !settled {
 		c.Discard("not-settled: nodes did not reach a common applied index within 180 s after heal: " + s.StateDigest())
